@@ -20,6 +20,15 @@ fn main() {
     if std::env::var("VERIF_SHOW_PANICS").is_err() {
         std::panic::set_hook(Box::new(|_| {}));
     }
+    // address-space cap for the whole process (workers set their own, tighter one): code under test that allocates without
+    // bound ends in an abort of this process (a machinery exit) instead of taking the machine down
+    {
+        let mem: u64 = std::env::var("VERIF_MAIN_MEM_MB").ok().and_then(|s| s.parse().ok()).unwrap_or(24 * 1024);
+        unsafe {
+            let lim = libc::rlimit { rlim_cur: mem * 1024 * 1024, rlim_max: mem * 1024 * 1024 };
+            libc::setrlimit(libc::RLIMIT_AS, &lim);
+        }
+    }
     if args[1] == "--worker" {
         std::process::exit(props::worker(&args[2]));
     }
